@@ -7,7 +7,7 @@ BASE = ["NewGrp", "Sub", "Leave", "SetSelf", "SetOther", "Pub", "Note", "Unload"
 
 def run(ctx):
     return tc.run_topic_check(
-        ctx, "C08", kinds=KINDS, maxseq=3,
+        ctx, "C08", kinds=KINDS, maxseq=3, p2p=True,
         want=["-", "N", "JR", "JRW", "JW", "JRWPASD"], given=["-", "N", "JR", "JRW", "JRWPAS", "JRWPASDO"],
         u1_quick={"want": ["-", "N", "JRW"], "given": ["-", "N", "JRW"], "kinds": BASE, "maxseq": 1, "nusers": 2},
         u1_thorough={"want": ["-", "N", "JRW", "JW"], "given": ["-", "N", "JRW"], "kinds": BASE, "maxseq": 2, "nusers": 2},
